@@ -95,7 +95,14 @@ func genC04c(g *G, sc *Scenario, tier string) {
 				if g.P(0.35) {
 					k = "ctxtxn"
 				}
-				ops = append(ops, Op{K: k, Parts: parts})
+				op := Op{K: k, Parts: parts}
+				if g.P(0.1) {
+					// refused as a whole: one part carries a nil reference
+					j := g.Intn(len(parts))
+					parts[j].Ents = append(parts[j].Ents, Ent{"id": MkE + "bad" + mark, "props": map[string]any{}, "refs": map[string]any{MkS + "p0": nil}})
+					op.M = map[string]any{"invalid": true}
+				}
+				ops = append(ops, op)
 			} else {
 				ds := g.Pick(datasets)
 				op := Op{K: "batch", DS: ds, Ents: mk(ds)}
